@@ -197,6 +197,31 @@ def must_consume_functions(E):
 FINITE_ITER = ("<std::ops::Range as std::iter::Iterator>::next", "<std::slice::Iter as std::iter::Iterator>::next",
                "<std::slice::IterMut as std::iter::Iterator>::next", "<std::str::Chars as std::iter::Iterator>::next",
                "<&mut I as std::iter::Iterator>::next", "<std::vec::IntoIter as std::iter::Iterator>::next")
+import re as _re
+# `next` of an iterator over a finite collection (a string, a slice, a vector, a bounded range, a map) or of a std adaptor around one.
+# Adaptors take their finiteness from what they wrap: the function must not build an unbounded source (repeat, cycle, successors,
+# from_fn, an open range).
+_FINITE_NEXT = _re.compile(r"<std::(str::(Chars|CharIndices|Bytes|Lines|Split\w*|Matches|MatchIndices)|slice::\w+|vec::(IntoIter|Drain)|ops::(Range|RangeInclusive)|"
+                           r"collections::\w+::\w+|iter::(Enumerate|Skip|Take|TakeWhile|SkipWhile|Rev|Peekable|Map|Filter|FilterMap|Zip|Copied|Cloned|Chain|StepBy|Flatten))"
+                           r"(<.*>)? as std::iter::Iterator>::next$")
+_UNBOUNDED_SOURCES = ("std::iter::repeat", "std::iter::repeat_with", "std::iter::successors", "std::iter::from_fn", "Iterator::cycle", "std::ops::RangeFrom")
+
+
+def finite_iterator_step(f, key):
+    if key in FINITE_ITER:
+        return True
+    if not _FINITE_NEXT.match(key or ""):
+        return False
+    if "std::iter::" in key:
+        for bb, t, ck, fr in f.calls():
+            if ck and ck.endswith(_UNBOUNDED_SOURCES):
+                return False
+        for bi, si, st in cfg.stmts(f):
+            if st["k"] == "assign" and st["rv"]["k"] == "agg" and str(st["rv"].get("adt", "")).endswith("RangeFrom"):
+                return False
+    return True
+
+
 SHRINK = ("str::strip_prefix", "saphyr_parser::input::str::split_first_char")
 
 
@@ -253,7 +278,7 @@ def clause_e_loops(rep, F, E, EB=None):
                 elif fr.get("trait") == INPUT and fr["name"] == "raw_read_non_breakz_ch":
                     # consumes on Some; the None edge must leave the loop: checked through the weak/strong split below
                     strong_blocks.add(b); kinds.add("raw-read")
-                elif key in FINITE_ITER:
+                elif finite_iterator_step(f, key):
                     strong_blocks.add(b); kinds.add("finite-iterator")
                 elif key in SHRINK:
                     strong_blocks.add(b); kinds.add("string-shrink")
